@@ -39,8 +39,8 @@ Definition header_bytes (h : option hmap) : list Z :=
 (* lines of a MIME block: split at \n, drop one trailing \r *)
 Fixpoint mime_lines (s cur : list Z) : list (list Z) :=
   match s with
-  | [] => match cur with [] => [] | _ => [rev cur] end
-  | c :: tl => if c =? 10 then (match cur with 13 :: r => rev r | _ => rev cur end) :: mime_lines tl []
+  | [] => match cur with [] => [] | _ => [rev' cur] end
+  | c :: tl => if c =? 10 then (match cur with 13 :: r => rev' r | _ => rev' cur end) :: mime_lines tl []
                else mime_lines tl (c :: cur)
   end.
 
@@ -191,6 +191,6 @@ Fixpoint read_frames (fuel : nat) (s : list Z) : list (list Z) * bool :=
 Fixpoint read_lines (s cur : list Z) : list (list Z) * bool :=
   match s with
   | [] => ([], match cur with [] => false | _ => true end)
-  | c :: tl => if c =? 10 then let '(ls, p) := read_lines tl [] in (rev cur :: ls, p)
+  | c :: tl => if c =? 10 then let '(ls, p) := read_lines tl [] in (rev' cur :: ls, p)
                else read_lines tl (c :: cur)
   end.
